@@ -968,6 +968,14 @@ def streams(ctx):
                            "conversions, nested specs, '=' forms; single/triple quotes, raw/non-raw, concatenated"))
     out.append(Stream("stdlib-fstrings", reqs_of(stdlib_fstrings(ctx, 3000 if ctx.quick else 100000)), kind="corpus",
                       note="f-string literals (with their implicitly concatenated neighbours) of the CPython 3.11 standard library"))
+    # letters that are syntax only to byte-level code (same low byte as { } ! : = ' " \ or a conversion letter), in literal
+    # text, inside field expressions (identifiers) and in specs
+    import lexcommon
+    base = [c for c in CORPUS if "\\N" not in c and "\r" not in c][:60] + ["f'a{x}b'", "f'{x!r}'", "f'{x:>5}'", "f'{x=}'", "f'{{a}}'", "f\"{x}'\"", "f'{x:{w}}'"]
+    al = list(dict.fromkeys(a for t in base for a in lexcommon.trunc_aliases(t[2:-1] if t[:2] == "f'" and t[-1] == "'" and "'" not in t[2:-1] else "", "{}!:=rsa\\\"")))
+    out.append(Stream("truncation-aliases", reqs_of(["f'" + a + "'" for a in al]), kind="directed",
+                      note="corpus bodies with one syntax character replaced by a letter that has the same low byte (U+01xx / U+100xx); "
+                           "kept when CPython accepts the result"))
     probes = []
     for key, src in KNOWN_PROBES:
         r = req_of(src)
